@@ -202,44 +202,42 @@ func (p *Prompt) SecondaryPrint(columns int) {
 	fmt.Print(secondary)
 }
 
-// MultilineColumnPrint prints the multiline editor column status indicator.
+// MultilineColumnPrint prints the multiline editor column status indicator,
+// on the first row of each line after the first one (indent is the number of
+// columns before the first line: a line may be wrapped over several rows).
 // It either prints a default, numbered or user-defined column.
 // It returns the number of rows that the cursor went down while printing it.
-func (p *Prompt) MultilineColumnPrint() (rows int) {
+func (p *Prompt) MultilineColumnPrint(indent int) (rows int) {
 	numbered := p.opts.GetBool("multiline-column-numbered")
 	custom := p.opts.GetString("multiline-column-custom")
 	defaultCol := p.opts.GetBool("multiline-column")
 
-	switch {
-	case numbered:
-		column := ""
-		for pos := 0; pos < p.line.Lines(); pos++ {
-			column += fmt.Sprintf("\n\x1b[1;30m%d\x1b[0m", pos+2)
-		}
-
-		fmt.Print(column)
-
-	case len(custom) > 0:
-		column := ""
-		for pos := 0; pos < p.line.Lines(); pos++ {
-			column += fmt.Sprintf("\n%s\x1b[0m", custom)
-		}
-
-		fmt.Print(column)
-
-	case defaultCol:
-		column := ""
-		for pos := 0; pos < p.line.Lines(); pos++ {
-			column += "\n" + multilineColumnDefault
-		}
-
-		fmt.Print(column)
-
-	default:
+	if !numbered && len(custom) == 0 && !defaultCol {
 		return 0
 	}
 
-	return p.line.Lines()
+	lines := strings.Split(string(*p.line), "\n")
+	column := ""
+
+	for pos := 0; pos < p.line.Lines(); pos++ {
+		// Below all the rows of the line above.
+		_, wrapped := strutil.LineSpan([]rune(lines[pos]), 0, indent)
+		column += strings.Repeat("\n", wrapped+1)
+		rows += wrapped + 1
+
+		switch {
+		case numbered:
+			column += fmt.Sprintf("\x1b[1;30m%d\x1b[0m", pos+2)
+		case len(custom) > 0:
+			column += fmt.Sprintf("%s\x1b[0m", custom)
+		default:
+			column += multilineColumnDefault
+		}
+	}
+
+	fmt.Print(column)
+
+	return rows
 }
 
 // RightPrint prints the right-sided prompt strings, which might be either
